@@ -1,0 +1,14 @@
+//go:build verif
+
+package query
+
+// VerifGate, when set, is called at the gate points of the pipeline state machine
+// (verification harness only): "completeStage.unlocked" after completeStage released the state machine's
+// mutex (stage state and first error recorded) and before it decrements the number of pending stages.
+var VerifGate func(point string)
+
+func verifGate(point string) {
+	if fn := VerifGate; fn != nil {
+		fn(point)
+	}
+}
